@@ -101,7 +101,7 @@ def stepReset (ins : List String) : Option (St × String) := do
 /-- `B` = 200 with this body; `F` = transfer failure / 404 / 500 / missing file;
 `S<code>` = that status with this body and no redirect (only 200 is a download);
 `R<code>` = a redirect with `Location` that the client follows to a 200 with this body. -/
-def fetchOf (kind : String) (data : Bytes) (complete : Bool) : Option Fetch :=
+def fetchOf1 (kind : String) (data : Bytes) (complete : Bool) : Option Fetch :=
   if kind == "F" then some Fetch.fail
   else if kind == "B" then some (Fetch.body data complete)
   else if kind.startsWith "S" then
@@ -110,6 +110,23 @@ def fetchOf (kind : String) (data : Bytes) (complete : Bool) : Option Fetch :=
   -- gzip content coding: decoded transparently by the client; a cut stream is a cut body
   else if kind == "G" then some (Fetch.body data complete)
   else none
+
+/-- One answer of an attempt chain `pre1+…+final`. -/
+def attemptOf (seg : String) (isLast : Bool) (data : Bytes) (complete : Bool) : Option Fetch :=
+  if isLast then fetchOf1 seg data complete
+  else if seg.startsWith "cut" then (hexDecode (seg.drop 3).toString).map (Fetch.body · false)
+  else if seg == "reset" || seg == "s500" || seg == "s404" then some Fetch.fail
+  else none
+
+/-- All answers the source would give to successive requests of one update. -/
+def attempts (kind : String) (data : Bytes) (complete : Bool) : Option (List Fetch) :=
+  let segs := kind.splitOn "+"
+  (List.range segs.length).mapM fun i => do
+    attemptOf (← segs[i]?) (i + 1 == segs.length) data complete
+
+/-- The code makes exactly ONE request per list and update: the first answer decides. -/
+def fetchOf (kind : String) (data : Bytes) (complete : Bool) : Option Fetch := do
+  (← attempts kind data complete).head?
 
 def parseInputs : List String → Option (List (Bool × Fetch))
   | due :: kind :: data :: complete :: tl => do
@@ -122,8 +139,19 @@ def parseInputs : List String → Option (List (Bool × Fetch))
   | [] => some []
   | _ => none
 
+/-- The later answers of every list's attempt chain (for the monitor only). -/
+def parseLater : List String → Option (List (List Fetch))
+  | _ :: kind :: data :: complete :: tl => do
+    let data ← hexDecode data
+    let complete ← parseBool complete
+    let fs ← attempts kind data complete
+    let r ← parseLater tl
+    pure (fs.drop 1 :: r)
+  | [] => some []
+  | _ => none
+
 def parseObsList : List String → Option (List ListObs)
-  | cnt :: ck :: file :: mask :: rw :: rc :: rk :: tl => do
+  | cnt :: ck :: file :: mask :: rw :: rc :: rk :: _reqs :: _cond :: tl => do
     let o : ListObs := ⟨← cnt.toNat?, ← ck.toNat?, ← parseFile file, ← mask.toNat?, ← parseBool rw, ← rc.toNat?, ← rk.toNat?⟩
     let r ← parseObsList tl
     pure (o :: r)
@@ -144,9 +172,13 @@ def stepRefresh (st : St) (ins impl : List String) : Option (St × String) := do
         let new ← ls'[i]?
         let inp ← inputs[i]?
         let rew := attempted rq old inp.1 && (updateIntl old.flt.checksum inp.2).isSome
+        let d ← st[i]?
+        -- exactly one request per attempted HTTP list and update (local files: none)
+        let reqs := if attempted rq old inp.1 && d.url.1 < 1000000 then "1" else "0"
         pure ("\t".intercalate [toString new.flt.count, toString new.flt.checksum, showFile new.flt.file,
-          toString (maskOf i new.inForce), if rew then "1" else "0", reparse new.flt.file])
+          toString (maskOf i new.inForce), if rew then "1" else "0", reparse new.flt.file, reqs, "0"])
       let m := "\t".intercalate rows
+      let later := (parseLater rest).getD []
       let agree := m == "\t".intercalate impl
       match parseObsList impl with
       | some obs =>
@@ -156,7 +188,11 @@ def stepRefresh (st : St) (ins impl : List String) : Option (St × String) := do
             let d ← st[i]?
             let inp ← inputs[i]?
             let o ← obs[i]?
-            refreshSpecWhy i d.prev inp.2 (attempted rq d.l inp.1) o
+            -- The property is satisfied if the outcome is right for ONE of the answers the
+            -- source gave (an implementation that retries is judged by the answer it used).
+            let w ← refreshSpecWhy i d.prev inp.2 (attempted rq d.l inp.1) o
+            if ((later[i]?).getD []).any fun f' => (refreshSpecWhy i d.prev f' (attempted rq d.l inp.1) o).isNone
+            then none else some w
           let st' := (List.range st.length).filterMap fun i => do
             let new ← ls'[i]?
             let o ← obs[i]?
@@ -187,8 +223,11 @@ def stepSetURL (dst : DSt) (ins impl : List String) : Option (DSt × String) := 
     let rows := (List.range st.length).filterMap fun x => do
       let new ← ls'[x]?
       let rew := x == i && (match res with | .ok true => (updateIntl (if changed then 0 else d.l.flt.checksum) f).isSome && en | _ => false)
+      -- one request when the handler downloads; it is counted under the URL the list ends up with
+      let downloads := en && (changed || (d.l.flt.enabled != en)) && !(changed && dup)
+      let reqs := if x == i && downloads && (!changed || o.urlChanged) then "1" else "0"
       pure ("\t".intercalate [toString new.flt.count, toString new.flt.checksum, showFile new.flt.file,
-        toString (maskOf x new.inForce), if rew then "1" else "0", reparse new.flt.file])
+        toString (maskOf x new.inForce), if rew then "1" else "0", reparse new.flt.file, reqs, "0"])
     let m := "\t".intercalate ((if okS then "200" else "400") :: (if o.urlChanged then "1" else "0") :: rows)
     let agree := m == "\t".intercalate impl
     match impl with
@@ -216,7 +255,7 @@ def rowsOf (ls : List LState) : List String :=
   (List.range ls.length).filterMap fun x => do
     let new ← ls[x]?
     pure ("\t".intercalate [toString new.flt.count, toString new.flt.checksum, showFile new.flt.file,
-      toString (maskOf x new.inForce), "0", reparse new.flt.file])
+      toString (maskOf x new.inForce), "0", reparse new.flt.file, "0", "0"])
 
 /-- `set_rules` (any handler that only requests a rebuild) and the loop step. -/
 def stepQueue (isLoop : Bool) (dst : DSt) (impl : List String) (rm : Option Nat := none) :
